@@ -251,3 +251,103 @@ E('C14', 'source-in-test', BLK, """        try:
 """)
 E('C14', 'is-ready-order', SIM, "return self._simtask is not None and self._error is None",
   "return self._error is None and self._simtask is not None")
+
+# ----------------------------------------------------------------------------- C19
+V('C19', 'const-hour', TC, "SEC_PER_HOUR = 3_600", "SEC_PER_HOUR = 3_660", 'R19.1')
+V('C19', 'scale-swapped', TU, "(1, SEC_PER_MIN, SEC_PER_HOUR, SEC_PER_DAY, None, None)",
+  "(1, SEC_PER_HOUR, SEC_PER_MIN, SEC_PER_DAY, None, None)", 'R19.1')
+V('C19', 'groups-reordered', TU, r"(?:{_NUM}\s*d)?  \s*  (?:{_NUM}\s*h)?  \s*", r"(?:{_NUM}\s*h)?  \s*  (?:{_NUM}\s*d)?  \s*", 'R19.1')
+V('C19', 'match-not-full', TU, "(match := re.fullmatch(tstr))", "(match := re.match(tstr))", 'R19.2')
+V('C19', 'iso-ignorecase', TU, "         \"\"\",\n    flags = re.ASCII | re.VERBOSE)", "         \"\"\",\n    flags = re.ASCII | re.VERBOSE | re.IGNORECASE)", 'R19.2')
+V('C19', 'iso-months-as-minutes', TU, "(1, SEC_PER_MIN, SEC_PER_HOUR, SEC_PER_DAY, None, None)",
+  "(1, SEC_PER_MIN, SEC_PER_HOUR, SEC_PER_DAY, SEC_PER_MIN, None)", 'R19.1')
+V('C19', 'none-scale-skipped', TU, """        if scale_factor is None:
+            raise ValueError("calendar years/months are not supported as duration units")
+""", """        if scale_factor is None:
+            continue
+""", 'R19.1')
+V('C19', 'fraction-check-dropped', TU, """            if not smallest_unit:
+                raise ValueError("only the smallest unit may have a fractional part")
+""", "", 'R19.3')
+V('C19', 'flag-cleared-late', TU, """        num = float(value)
+        smallest_unit = False
+        if num == 0.0:
+            continue
+""", """        num = float(value)
+        if num == 0.0:
+            continue
+        smallest_unit = False
+""", 'R19.3')
+V('C19', 'empty-accepted', TU, """    if smallest_unit:
+        raise ValueError("at least one element must be present")
+""", "", 'R19.3')
+V('C19', 'negative-kept', TU, "        return max(0.0, period)\n", "        return period\n", 'R19.4')
+V('C19', 'int-unclamped', TU, """    if isinstance(period, int):
+        period = float(period)
+""", """    if isinstance(period, int):
+        return float(period)
+""", 'R19.4')
+V('C19', 'timestr-divisor', TU, """    d, s = divmod(seconds, SEC_PER_DAY)
+    h, s = divmod(s, SEC_PER_HOUR)
+    m, s = divmod(s, SEC_PER_MIN)
+    parts = []
+    if d:
+        parts.append(f"{int(d)}d")
+    if d or h:
+        parts.append(f"{int(h)}h")
+    parts.append(f"{int(m)}m")
+    parts.append(f"{s:.{prec}f}s\"""", """    d, s = divmod(seconds, SEC_PER_DAY)
+    h, s = divmod(s, SEC_PER_HOUR)
+    m, s = divmod(seconds, SEC_PER_MIN)
+    parts = []
+    if d:
+        parts.append(f"{int(d)}d")
+    if d or h:
+        parts.append(f"{int(h)}h")
+    parts.append(f"{int(m)}m")
+    parts.append(f"{s:.{prec}f}s\"""", 'R19.6')
+V('C19', 'comma-not-replaced', TU, "                value = value.replace(',', '.', 1)\n", "                pass\n", 'R19.3')
+V('C19', 'unit-s-mandatory-h-optional', TU, r"(?:{_NUM}\s*h)?  \s*" + "\n", r"(?:{_NUM}\s*h?)?  \s*" + "\n", 'R19.1')
+E('C19', 'constants-product', TC, "SEC_PER_HOUR = 3_600", "SEC_PER_HOUR = 60 * 60")
+E('C19', 'pattern-split', TU, "_NUM = r'(\\d+(?:[.,]\\d+)?)'", "_DIG = r'\\d+'\n_NUM = rf'({_DIG}(?:[.,]{_DIG})?)'")
+E('C19', 'time-period-elif', TU, """    if isinstance(period, str):
+        return convert(period)
+    raise TypeError""", """    elif isinstance(period, str):
+        return convert(period)
+    else:
+        raise TypeError""")
+
+# ----------------------------------------------------------------------------- C13
+V('C13', 'open-le', TI, "        if low < high:\n            return low <= item < high\n", "        if low < high:\n            return low <= item <= high\n", 'R13.1')
+V('C13', 'open-wrap-and', TI, "        return low <= item or item < high\n", "        return low <= item and item < high\n", 'R13.1')
+V('C13', 'open-equal-empty', TI, "        if low < high:\n            return low <= item < high\n", "        if low <= high:\n            return low <= item < high\n", 'R13.1')
+V('C13', 'closed-exclusive', TI, "        if low <= high:\n            return low <= item <= high\n", "        if low <= high:\n            return low <= item < high\n", 'R13.1')
+V('C13', 'datetime-wraps', TI, """    @staticmethod
+    def _cmp_open(low: dt.datetime, item: dt.datetime, high: dt.datetime) -> bool:
+        \"\"\"Compare function for non-recurring intervals.\"\"\"
+        return low <= item < high
+""", "", 'R13.1')
+V('C13', 'date-open', TI, "class DateInterval(_Interval[dt.date]):\n    \"\"\"\n    List of date ranges and single dates.\n    \"\"\"\n\n    _RCLOSED_INTERVAL = True",
+  "class DateInterval(_Interval[dt.date]):\n    \"\"\"\n    List of date ranges and single dates.\n    \"\"\"\n\n    _RCLOSED_INTERVAL = False", 'R13.2')
+V('C13', 'contains-swapped', TI, "any(self._cmp(low, item, high) for low, high in self._interval)", "any(self._cmp(item, low, high) for low, high in self._interval)", 'R13.1b')
+V('C13', 'dispatch-inverted', TI, "(self._cmp_closed if self._RCLOSED_INTERVAL else self._cmp_open)(*args)", "(self._cmp_open if self._RCLOSED_INTERVAL else self._cmp_closed)(*args)", 'R13.1b')
+V('C13', 'unsorted', TI, "self._interval = sorted(self._parse_range(subint) for subint in ivalue)", "self._interval = list(self._parse_range(subint) for subint in ivalue)", 'R13.3')
+V('C13', 'export-short', TI, "    dt.time: _DT_ATTRS[3:],", "    dt.time: _DT_ATTRS[3:6],", 'R13.3')
+V('C13', 'aslist-swapped', TI, "return [[export(start), export(stop)] for start, stop in self._interval]", "return [[export(stop), export(start)] for start, stop in self._interval]", 'R13.3')
+V('C13', 'dummy-year', TI, "_DUMMY_YEAR = 404", "_DUMMY_YEAR = 405", 'R13.3')
+V('C13', 'wrong-converter', TI, "    _RCLOSED_INTERVAL = False\n    _convert_seq = convert_datetime_seq\n    _convert_str = convert_datetime_str", "    _RCLOSED_INTERVAL = False\n    _convert_seq = convert_datetime_seq\n    _convert_str = convert_date_str", 'R13.2')
+V('C13', 'render-low-sep', TI, 'return f"{to_string(start)} {_RANGE_SEPARATORS[0]} {to_string(stop)}{_DELIMITER}"', 'return f"{to_string(start)} {_RANGE_SEPARATORS[2]} {to_string(stop)}{_DELIMITER}"', 'R13.4')
+V('C13', 'single-any', TI, "            if length == 1 and self._RCLOSED_INTERVAL:", "            if length == 1:", 'R13.4')
+V('C13', 'leftover-ignored', TI, """    string = string.strip()
+    if string:
+        raise ValueError(
+            f"Could not convert {original_string!r}, offending part: {string!r}")
+""", "", 'R13.5')
+V('C13', 'tz-accepted', TI, """        if dt_time.tzinfo is not None:
+            raise ValueError(f"{time_str!r}: time zones are not supported")
+""", "", 'R13.5')
+V('C13', 'seq-length', TI, "    if not 1 <= len(time_seq) <= 4:", "    if not 1 <= len(time_seq) <= 5:", 'R13.3')
+E('C13', 'cmp-negated', TI, "        if low < high:\n            return low <= item < high\n        # low <= item < MAX or MIN <= item < high\n        return low <= item or item < high\n",
+  "        if not low < high:\n            return not item < low or item < high\n        return not item < low and item < high\n")
+E('C13', 'cmp-split-chain', TI, "        if low <= high:\n            return low <= item <= high\n", "        if low <= high:\n            return low <= item and item <= high\n")
+E('C13', 'cmp-ifexp', TI, "        if low <= high:\n            return low <= item <= high\n        return low <= item or item <= high\n", "        return (low <= item <= high) if low <= high else (low <= item or item <= high)\n")
